@@ -3072,3 +3072,102 @@ func ruleFindFirst(prog *Program, rep *Report, rels ...string) {
 	rep.Rules = append(rep.Rules, "T-first: a range loop whose body is one `if cond { v = <loop variable> ... }` leaves the loop after the assignment (break, goto or return): the streaming matcher selects the first target that matches the current path")
 	runSynRule(prog, rep, "T-first", rels, matchFindFirst, fixtureFindFirst, 1, 1)
 }
+
+// ---------------------------------------------------------------- M-recopt
+
+// matchRecursionDropsOptions: a function that takes its options as a variadic parameter and
+// calls itself on the parts of its argument has to hand the options on (`f(part, opt...)`).
+// A self-call without them converts everything below that point with the default options.
+func matchRecursionDropsOptions(files []*ast.File, info *types.Info) (sites []synSite, examined int) {
+	for _, f := range files {
+		for _, d := range f.Decls {
+			fd, ok := d.(*ast.FuncDecl)
+			if !ok || fd.Body == nil || fd.Type.Params == nil || len(fd.Type.Params.List) == 0 {
+				continue
+			}
+			last := fd.Type.Params.List[len(fd.Type.Params.List)-1]
+			if _, isVar := last.Type.(*ast.Ellipsis); !isVar || len(last.Names) != 1 {
+				continue
+			}
+			vp := info.Defs[last.Names[0]]
+			self := info.Defs[fd.Name]
+			nparams := 0
+			for _, fl := range fd.Type.Params.List {
+				nparams += len(fl.Names)
+			}
+			ast.Inspect(fd.Body, func(n ast.Node) bool {
+				call, ok := n.(*ast.CallExpr)
+				if !ok {
+					return true
+				}
+				var callee types.Object
+				switch fn := ast.Unparen(call.Fun).(type) {
+				case *ast.Ident:
+					callee = info.Uses[fn]
+				case *ast.SelectorExpr:
+					callee = info.Uses[fn.Sel]
+				}
+				if callee == nil || callee != self {
+					return true
+				}
+				examined++
+				passes := false
+				for _, a := range call.Args {
+					if useObj(info, a) == vp {
+						passes = true
+					}
+					// an element or a value derived from the options also counts (opt[0], o)
+					ast.Inspect(a, func(k ast.Node) bool {
+						if id, ok := k.(*ast.Ident); ok && info.Uses[id] == vp {
+							passes = true
+						}
+						return true
+					})
+				}
+				if !passes && len(call.Args) < nparams {
+					name := enclosingFuncName(f, call.Pos())
+					if recOptAccepted[name] != "" {
+						return true
+					}
+					sites = append(sites, synSite{pos: call.Pos(), file: f, key: name + ":self-call-without-" + vp.Name(),
+						msg: fmt.Sprintf("%s calls itself without its variadic parameter %s: everything below this point is processed with the defaults instead of the caller's options", name, vp.Name())})
+				}
+				return true
+			})
+		}
+	}
+	return
+}
+
+// recOptAccepted: self-calls without the variadic parameter that were read and are intended.
+var recOptAccepted = map[string]string{
+	"diff": "alt.diff drops the ignore paths on purpose where the path's index does not select the element being compared (the else branch of `ii == i || ii < 0`)",
+}
+
+const fixtureRecursionDropsOptions = `package fixture
+
+type Options struct{ OmitNil bool }
+
+func conv(v any, opt ...*Options) any {
+	switch tv := v.(type) {
+	case []any:
+		a := make([]any, len(tv))
+		for i, m := range tv {
+			a[i] = conv(m)
+		}
+		return a
+	case map[string]any:
+		o := map[string]any{}
+		for k, m := range tv {
+			o[k] = conv(m, opt...)
+		}
+		return o
+	}
+	return v
+}
+`
+
+func ruleRecursionDropsOptions(prog *Program, rep *Report, rels ...string) {
+	rep.Rules = append(rep.Rules, "M-recopt: a function with a variadic options parameter that calls itself on the parts of its argument hands the options on: no self-call omits them")
+	runSynRule(prog, rep, "M-recopt", rels, matchRecursionDropsOptions, fixtureRecursionDropsOptions, 1, 4)
+}
